@@ -153,7 +153,7 @@ func (w *worker) basePath(name string) string {
 	return filepath.Join(w.job.BaseDir, name)
 }
 
-func (w *worker) execReader(i int, th Thread, ref []string) []string {
+func (w *worker) execReader(i int, th Thread, conc bool) []string {
 	var st readerState
 	res := make([]string, 0, len(th.Ops)+1)
 	closeSlot := func(s int) string {
@@ -222,7 +222,7 @@ func (w *worker) execReader(i int, th Thread, ref []string) []string {
 			}
 			return "unknown-op"
 		})
-		w.vet(i, r, ref != nil, ref, len(res))
+		w.vet(i, r, conc, false)
 		res = append(res, r)
 		pause(op.P)
 	}
@@ -307,7 +307,7 @@ type writerState struct {
 	ngrp int
 }
 
-func (w *worker) execWriter(i int, th Thread, tag string, ref []string) []string {
+func (w *worker) execWriter(i int, th Thread, tag string, conc bool) []string {
 	st := &writerState{path: filepath.Join(w.job.WorkDir, fmt.Sprintf("w-%s-%d.h5", tag, i))}
 	res := make([]string, 0, len(th.Ops)+1)
 	closeAndObserve := func() string {
@@ -396,22 +396,22 @@ func (w *worker) execWriter(i int, th Thread, tag string, ref []string) []string
 			}
 			return "unknown-op"
 		})
-		w.vet(i, r, ref != nil, ref, len(res))
+		w.vet(i, r, conc, false)
 		res = append(res, r)
 		pause(op.P)
 	}
 	r := w.do(i, "close-final", true, closeAndObserve)
-	w.vet(i, r, ref != nil, ref, len(res))
+	w.vet(i, r, conc, false)
 	return append(res, r)
 }
 
-// execHandleThread runs thread i; ref is nil in the sequential phase and the sequential results afterwards.
-func (w *worker) execHandleThread(i int, tag string, ref []string) []string {
+// execHandleThread runs the op list of thread i.
+func (w *worker) execHandleThread(i int, tag string, conc bool) []string {
 	th := w.c.Threads[i]
 	if th.Role == "writer" {
-		return w.execWriter(i, th, tag, ref)
+		return w.execWriter(i, th, tag, conc)
 	}
-	return w.execReader(i, th, ref)
+	return w.execReader(i, th, conc)
 }
 
 func opNames(th Thread) []string {
@@ -424,16 +424,42 @@ func opNames(th Thread) []string {
 
 func (w *worker) runHandles() {
 	n := len(w.c.Threads)
+	reps := w.c.Reps
+	if reps < 1 {
+		reps = 1
+	}
+	// The concurrent phase comes first, in this fresh process: anything the library initialises lazily on first
+	// use is then first used concurrently. The sequential reference is taken afterwards.
+	all := make([][][]string, reps)
+	for rep := 0; rep < reps; rep++ {
+		w.tr.phase.Store("conc")
+		w.tr.resetWindows()
+		baseline := goroutineBaseline()
+		got := make([][]string, n)
+		bodies := make([]func(), n)
+		for i := 0; i < n; i++ {
+			i := i
+			bodies[i] = func() { got[i] = w.execHandleThread(i, fmt.Sprintf("c%d", rep), true) }
+		}
+		w.runThreads(bodies)
+		if w.tr.windowsOverlap(n) {
+			w.mu.Lock()
+			w.out.Overlap = true
+			w.mu.Unlock()
+		}
+		all[rep] = got
+		w.settle(baseline, "handles")
+	}
 	// sequential reference, twice: ops whose sequential result is not reproducible are masked (they cannot be
 	// compared; determinism is not what C18 is about)
 	w.tr.phase.Store("seq")
 	ref := make([][]string, n)
 	mask := make([][]bool, n)
 	for i := 0; i < n; i++ {
-		ref[i] = w.execHandleThread(i, "s1", nil)
+		ref[i] = w.execHandleThread(i, "s1", false)
 	}
 	for i := 0; i < n; i++ {
-		again := w.execHandleThread(i, "s2", nil)
+		again := w.execHandleThread(i, "s2", false)
 		mask[i] = make([]bool, len(ref[i]))
 		for k := range ref[i] {
 			if k >= len(again) || again[k] != ref[i][k] {
@@ -444,30 +470,10 @@ func (w *worker) runHandles() {
 			}
 		}
 	}
-	reps := w.c.Reps
-	if reps < 1 {
-		reps = 1
-	}
 	for rep := 0; rep < reps; rep++ {
-		w.tr.phase.Store("conc")
-		w.tr.resetWindows()
-		baseline := goroutineBaseline()
-		got := make([][]string, n)
-		bodies := make([]func(), n)
 		for i := 0; i < n; i++ {
-			i := i
-			bodies[i] = func() { got[i] = w.execHandleThread(i, fmt.Sprintf("c%d", rep), ref[i]) }
+			w.compare(i, rep, opNames(w.c.Threads[i]), ref[i], all[rep][i], mask[i])
 		}
-		w.runThreads(bodies)
-		if w.tr.windowsOverlap(n) {
-			w.mu.Lock()
-			w.out.Overlap = true
-			w.mu.Unlock()
-		}
-		for i := 0; i < n; i++ {
-			w.compare(i, rep, opNames(w.c.Threads[i]), ref[i], got[i], mask[i])
-		}
-		w.settle(baseline, "handles")
 	}
 }
 
